@@ -864,6 +864,7 @@ func (m *MutableOverlayWorld) AddFeature(f Feature) error {
 
 		for _, reference := range references {
 			if err := ValidateFeature(NewFeatureFromWorld(reference), &ValidateOptions{InvertClockwisePaths: false}, m); err != nil {
+				(*m.features)[f.FeatureID()] = existing
 				return err
 			}
 		}
